@@ -10,6 +10,7 @@ Inductive value :=
 | VBool (b : bool)
 | VStr (s : string)
 | VUnit
+| VFloat (f : option Z)                               (* f64: Some z is the float z.0, None is NaN (incomparable with everything) *)
 | VRefV (v : value)                                   (* one reference layer: &T *)
 | VBoxV (v : value)                                   (* Box / Rc / Arc *)
 | VTupleV (vs : list value)
@@ -32,6 +33,7 @@ Fixpoint value_eqb (a b : value) {struct a} : bool :=
   | VBool x, VBool y => Bool.eqb x y
   | VStr x, VStr y => String.eqb x y
   | VUnit, VUnit => true
+  | VFloat x, VFloat y => match x, y with Some a, Some b => Z.eqb a b | None, None => true | _, _ => false end
   | VRefV x, VRefV y | VBoxV x, VBoxV y => value_eqb x y
   | VTupleV xs, VTupleV ys | VVecV xs, VVecV ys =>
       (fix go (l1 l2 : list value) : bool :=
@@ -101,10 +103,26 @@ Definition parse_str_lit (s : string) : option string :=
   | EmptyString => None
   end.
 
+(* a float literal with an integral value: digits `.0` *)
+Fixpoint split_dot (s : string) : option (string * string) :=
+  match s with
+  | EmptyString => None
+  | String c r => if Ascii.eqb c "." then Some (EmptyString, r)
+                  else match split_dot r with Some (a, b) => Some (String c a, b) | None => None end
+  end.
+Definition parse_float (s : string) : option Z :=
+  match split_dot s with
+  | Some (a, b) => if String.eqb b "0" then parse_int a else None
+  | None => None
+  end.
+
 Definition lit_value (s : string) : option value :=
   match parse_int s with
   | Some z => Some (VInt z)
-  | None => match parse_str_lit s with Some t => Some (VStr t) | None => None end
+  | None => match parse_float s with
+            | Some z => Some (VFloat (Some z))
+            | None => match parse_str_lit s with Some t => Some (VStr t) | None => None end
+            end
   end.
 
 (* the value of an expression written by the user, in the caller's environment:
@@ -116,7 +134,10 @@ Definition ueval_toks (caller : list (string * value)) (ts : list tok) : option 
                     else if String.eqb s "false" then Some (VBool false)
                     else assoc s caller
   | [TPunct c _ _; TLit s _] =>
-      if Ascii.eqb c "-" then match parse_int s with Some z => Some (VInt (- z)) | None => None end
+      if Ascii.eqb c "-" then match parse_int s with
+                              | Some z => Some (VInt (- z))
+                              | None => match parse_float s with Some z => Some (VFloat (Some (- z)%Z)) | None => None end
+                              end
       else if Ascii.eqb c "&" then lit_value s
       else None
   | [TPunct c _ _; TIdent s _] => if Ascii.eqb c "&" then assoc s caller else None
@@ -131,6 +152,8 @@ Definition lit_pat_matches (ts : list tok) (v : value) : option bool :=
   | Some (VInt z) => match peel v with VInt w => Some (Z.eqb z w) | _ => None end
   | Some (VBool b) => match peel v with VBool w => Some (Bool.eqb b w) | _ => None end
   | Some (VStr s) => match peel v with VStr w => Some (String.eqb s w) | _ => None end
+  | Some (VFloat (Some z)) =>
+      match peel v with VFloat w => Some (match w with Some y => Z.eqb z y | None => false end) | _ => None end
   | _ => None
   end.
 
@@ -142,6 +165,16 @@ Definition cmp_holds (op : cmp_op) (a b : value) : option bool :=
       Some (match op with
             | OpLt => Z.ltb x y | OpLe => Z.leb x y | OpGt => Z.ltb y x | OpGe => Z.leb y x
             | OpEq => Z.eqb x y | OpNe => negb (Z.eqb x y)
+            end)
+  | VFloat x, VFloat y =>
+      (* PartialOrd / PartialEq of f64: every comparison with NaN is false, except `!=` *)
+      Some (match x, y with
+            | Some a, Some b =>
+                match op with
+                | OpLt => Z.ltb a b | OpLe => Z.leb a b | OpGt => Z.ltb b a | OpGe => Z.leb b a
+                | OpEq => Z.eqb a b | OpNe => negb (Z.eqb a b)
+                end
+            | _, _ => match op with OpNe => true | _ => false end
             end)
   | VStr x, VStr y =>
       match op with
@@ -162,17 +195,30 @@ Definition in_range (lo : option Z) (incl : bool) (hi : option Z) (z : Z) : bool
   (match lo with Some l => Z.leb l z | None => true end) &&
   (match hi with Some h => if incl then Z.leb z h else Z.ltb z h | None => true end).
 
-Definition bound_val (b : option uexpr) : option (option Z) :=
+(* a bound: absent, an integer literal (false, z) or a float literal (true, z) *)
+Definition bound_val (b : option uexpr) : option (option (bool * Z)) :=
   match b with
   | None => Some None
-  | Some u => match ueval [] u with Some (VInt z) => Some (Some z) | _ => None end
+  | Some u => match ueval [] u with
+              | Some (VInt z) => Some (Some (false, z))
+              | Some (VFloat (Some z)) => Some (Some (true, z))
+              | _ => None
+              end
   end.
+Definition bound_is (fl : bool) (b : option (bool * Z)) : bool :=
+  match b with None => true | Some (f, _) => Bool.eqb f fl end.
+Definition bound_z (b : option (bool * Z)) : option Z := option_map snd b.
 
 Definition range_holds (parts : option (option uexpr * bool * option uexpr)) (v : value) : option bool :=
   match parts with
   | Some (lo, incl, hi) =>
       match bound_val lo, bound_val hi, peel v with
-      | Some l, Some h, VInt z => Some (in_range l incl h z)
+      | Some l, Some h, VInt z =>
+          if bound_is false l && bound_is false h then Some (in_range (bound_z l) incl (bound_z h) z) else None
+      | Some l, Some h, VFloat w =>
+          if bound_is true l && bound_is true h
+          then Some (match w with Some z => in_range (bound_z l) incl (bound_z h) z | None => false end)   (* NaN is in no range *)
+          else None
       | _, _, _ => None
       end
   | None => None
@@ -279,6 +325,7 @@ Fixpoint debug (v : value) : string :=
   | VBool b => if b then "true" else "false"
   | VStr s => """" ++ escape_str s ++ """"
   | VUnit => "()"
+  | VFloat f => match f with Some z => Z_to_string z ++ ".0" | None => "NaN" end
   | VRefV w | VBoxV w => debug w
   | VTupleV vs =>
       match vs with
